@@ -16,6 +16,7 @@ import (
 	rbactcp "github.com/envoyproxy/go-control-plane/envoy/extensions/filters/network/rbac/v3"
 	uritemplate "github.com/envoyproxy/go-control-plane/envoy/extensions/path/match/uri_template/v3"
 	matcherpb "github.com/envoyproxy/go-control-plane/envoy/type/matcher/v3"
+	typev3 "github.com/envoyproxy/go-control-plane/envoy/type/v3"
 	"google.golang.org/protobuf/proto"
 
 	"verifharness/internal/wire"
@@ -34,6 +35,64 @@ type builtFilter struct {
 	invalid string
 	// ext_authz filter of the CUSTOM action: only the metadata matcher that enables it is compared
 	extAuthz *matcherpb.MetadataMatcher
+	// ... and its target: kind, upstream cluster, authority / URI host, failure mode, status on error, path prefix
+	// (everything else of the ext_authz config must have the fixed default the harness never changes)
+	target string
+	label  string // kind:cluster - names the consulted authorizer on `req` lines
+}
+
+// extTargetHTTP / extTargetTCP: canonical target of an ext_authz filter.
+func extTarget(kind, cluster, hostname string, failOpen bool, status *typev3.HttpStatus, prefix string) string {
+	st := "nil"
+	if status != nil {
+		st = fmt.Sprint(int32(status.GetCode()))
+	}
+	fo := "0"
+	if failOpen {
+		fo = "1"
+	}
+	return fmt.Sprintf("(%s cluster=%s host=%s failopen=%s status=%s prefix=%s)", kind, wire.Enc(cluster), wire.Enc(hostname), fo, st, wire.Enc(prefix))
+}
+
+func (b *builtFilter) httpTarget(ea *extauthzhttp.ExtAuthz) {
+	rest := proto.Clone(ea).(*extauthzhttp.ExtAuthz)
+	switch sv := ea.GetServices().(type) {
+	case *extauthzhttp.ExtAuthz_GrpcService:
+		eg := sv.GrpcService.GetEnvoyGrpc()
+		b.target = extTarget("grpc", eg.GetClusterName(), eg.GetAuthority(), ea.GetFailureModeAllow(), ea.GetStatusOnError(), "")
+		b.label = "grpc:" + eg.GetClusterName()
+		if sv.GrpcService.GetTimeout().GetSeconds() != 600 || sv.GrpcService.GetGoogleGrpc() != nil || len(sv.GrpcService.GetInitialMetadata()) != 0 {
+			b.other = "ext-authz-grpc-service"
+		}
+	case *extauthzhttp.ExtAuthz_HttpService:
+		hs := sv.HttpService
+		b.target = extTarget("http", hs.GetServerUri().GetCluster(), strings.TrimPrefix(hs.GetServerUri().GetUri(), "http://"),
+			ea.GetFailureModeAllow(), ea.GetStatusOnError(), hs.GetPathPrefix())
+		b.label = "http:" + hs.GetServerUri().GetCluster()
+		if hs.GetServerUri().GetTimeout().GetSeconds() != 600 || !strings.HasPrefix(hs.GetServerUri().GetUri(), "http://") ||
+			hs.GetAuthorizationRequest() != nil || hs.GetAuthorizationResponse() != nil {
+			b.other = "ext-authz-http-service"
+		}
+	default:
+		b.other = "ext-authz-without-service"
+	}
+	rest.Services, rest.FilterEnabledMetadata, rest.StatusOnError, rest.FailureModeAllow = nil, nil, nil, false
+	rest.TransportApiVersion = 0
+	if ea.GetTransportApiVersion() != corepb.ApiVersion_V3 || proto.Size(rest) != 0 {
+		b.other += "+ext-authz-extra-fields"
+	}
+}
+
+func (b *builtFilter) tcpTarget(ea *extauthztcp.ExtAuthz) {
+	eg := ea.GetGrpcService().GetEnvoyGrpc()
+	b.target = extTarget("grpc", eg.GetClusterName(), eg.GetAuthority(), ea.GetFailureModeAllow(), nil, "")
+	b.label = "grpc:" + eg.GetClusterName()
+	rest := proto.Clone(ea).(*extauthztcp.ExtAuthz)
+	rest.GrpcService, rest.FilterEnabledMetadata, rest.FailureModeAllow, rest.StatPrefix, rest.TransportApiVersion = nil, nil, false, "", 0
+	if ea.GetStatPrefix() != "tcp." || ea.GetTransportApiVersion() != corepb.ApiVersion_V3 || ea.GetGrpcService().GetTimeout().GetSeconds() != 600 ||
+		proto.Size(rest) != 0 {
+		b.other += "+ext-authz-extra-fields"
+	}
 }
 
 func fromHTTP(f *hcm.HttpFilter) *builtFilter {
@@ -41,6 +100,7 @@ func fromHTTP(f *hcm.HttpFilter) *builtFilter {
 	cfg := &rbachttp.RBAC{}
 	if ea := (&extauthzhttp.ExtAuthz{}); f.GetTypedConfig().UnmarshalTo(ea) == nil {
 		b.extAuthz = ea.GetFilterEnabledMetadata()
+		b.httpTarget(ea)
 		if b.extAuthz == nil {
 			b.other = "ext-authz-without-enabling-metadata"
 		}
@@ -73,6 +133,7 @@ func fromTCP(f *listener.Filter) *builtFilter {
 	cfg := &rbactcp.RBAC{}
 	if ea := (&extauthztcp.ExtAuthz{}); f.GetTypedConfig().UnmarshalTo(ea) == nil {
 		b.extAuthz = ea.GetFilterEnabledMetadata()
+		b.tcpTarget(ea)
 		if b.extAuthz == nil {
 			b.other = "ext-authz-without-enabling-metadata"
 		}
@@ -117,7 +178,11 @@ func canonFilters(fs []*builtFilter) string {
 
 func canonFilter(f *builtFilter) string {
 	if f.extAuthz != nil {
-		return "(extauthz " + wire.Enc(f.name) + " enabled=" + canonMeta(f.extAuthz) + ")"
+		s := "(extauthz " + wire.Enc(f.name) + " enabled=" + canonMeta(f.extAuthz) + " target=" + f.target
+		if f.other != "" {
+			s += " UNEXPECTED=" + wire.Enc(f.other)
+		}
+		return s + ")"
 	}
 	s := fmt.Sprintf("(filter %s rules=%s shadow=%s sprefix=%s stat=%s", wire.Enc(f.name), canonRBAC(f.rules), canonRBAC(f.shadow),
 		wire.Enc(f.shadowPrefix), wire.Enc(f.statPrefix))
